@@ -463,7 +463,7 @@ func headerBatchJobs(w *world) []job {
 	for _, x := range []struct {
 		s     int
 		batch uint64
-	}{{0, 7}, {4, 3}, {12, 5}, {2, 1}} {
+	}{{0, 7}, {4, 5}, {12, 5}, {2, 12}} {
 		hc := &headerBatchCase{name: fmt.Sprintf("honest-headers-in-batches-of-%d-from-%d", x.batch, x.s),
 			tags: []string{"kind:honest", "headers:several-replies-needed", regime(w, x.s)}, w: w, s: x.s, batch: x.batch}
 		jobs = append(jobs, job{name: hc.name, quick: true, run: hc.run})
